@@ -52,9 +52,32 @@ Definition set_start_kind (evs : list event) (p : nat) (k : skind) : option (lis
 Definition m_set_kind (m : mst) (p : nat) (k : skind) : option mst :=
   match set_start_kind (fst m) p k with Some evs => Some (evs, snd m) | None => None end.
 
+(** ** bracket depth of an event list: non-erased starts minus ends *)
+Fixpoint depth (evs : list event) : Z :=
+  match evs with
+  | [] => 0%Z
+  | NodeStart k _ :: r => ((if N.eqb k SK_None then 0 else 1) + depth r)%Z
+  | NodeEnd :: r => (depth r - 1)%Z
+  | _ :: r => depth r
+  end.
+
+(** every prefix has at least as many live starts as ends *)
+Fixpoint prefix_ok (evs : list event) (d : Z) : bool :=
+  match evs with
+  | [] => true
+  | NodeStart k _ :: r => prefix_ok r (if N.eqb k SK_None then d else d + 1)%Z
+  | NodeEnd :: r => (1 <=? d)%Z && prefix_ok r (d - 1)%Z
+  | _ :: r => prefix_ok r d
+  end.
+
+
+(** the start at [p] is not closed by any later NodeEnd: the events after it never need it *)
+Definition unclosed (evs : list event) (p : nat) : bool := prefix_ok (skipn (S p) evs) 0.
+
 (** the discipline the Rust type system enforces on the client (a [Marker] is a linear value: it is consumed by
     exactly one complete/undo and can be retagged only before that; kinds passed by the grammar are never
-    [None]), stated as a decidable test of one operation against the current state *)
+    [None]; a NodeEnd is pushed only while a node is open; a node that is undone has not been closed), stated as
+    a decidable test of one operation against the current state *)
 Definition live_start (evs : list event) (p : nat) : bool :=
   match nth_error evs p with
   | Some (NodeStart k _) => negb (k =? SK_None)
@@ -65,10 +88,10 @@ Definition mop_ok (m : mst) (d : dop) : bool :=
   match d with
   | DMark k => negb (k =? SK_None)
   | DSetKind p k => negb (k =? SK_None) && live_start (fst m) p
-  | DComplete p => live_start (fst m) p
-  | DUndo p => live_start (fst m) p
+  | DComplete p => live_start (fst m) p && (0 <? snd m)%Z
+  | DUndo p => live_start (fst m) p && unclosed (fst m) p
   | DPrecede _ k => negb (k =? SK_None)
-  | DRawEnd => true
+  | DRawEnd => (0 <? snd m)%Z
   | DEat _ _ _ => true
   end.
 
@@ -372,22 +395,4 @@ Fixpoint exec_ops (st : pst) (ops : list op) : option pst :=
   end.
 
 End Raw.
-
-(** ** bracket depth of an event list: non-erased starts minus ends *)
-Fixpoint depth (evs : list event) : Z :=
-  match evs with
-  | [] => 0%Z
-  | NodeStart k _ :: r => ((if N.eqb k SK_None then 0 else 1) + depth r)%Z
-  | NodeEnd :: r => (depth r - 1)%Z
-  | _ :: r => depth r
-  end.
-
-(** every prefix has at least as many live starts as ends *)
-Fixpoint prefix_ok (evs : list event) (d : Z) : bool :=
-  match evs with
-  | [] => true
-  | NodeStart k _ :: r => prefix_ok r (if N.eqb k SK_None then d else d + 1)%Z
-  | NodeEnd :: r => (1 <=? d)%Z && prefix_ok r (d - 1)%Z
-  | _ :: r => prefix_ok r d
-  end.
 
